@@ -124,7 +124,15 @@ impl TransactionOutputAmountBuilder {
         if let Some(script_ref) = &self.script_ref {
             calc.set_script_ref(script_ref);
         }
-        let required_coin = calc.calculate_ada()?;
+        let mut required_coin = calc.calculate_ada()?;
+
+        // the calculator above sizes the output with a placeholder 57-byte base address;
+        // an output for a longer address (e.g. a Byron address with a derivation path) needs more
+        calc.set_address(&self.address);
+        let required_coin_for_address = calc.calculate_ada()?;
+        if required_coin.less_than(&required_coin_for_address) {
+            required_coin = required_coin_for_address;
+        }
 
         Ok(self.with_coin_and_asset(&required_coin, &multiasset))
     }
